@@ -451,7 +451,7 @@ func main() {
 			run(k)
 		}
 	}
-	n := e.N(4, 30)
+	n := e.N(3, 10)
 	for i := 0; i < n; i++ {
 		run(kase{Seed: e.Rng.U64() % 1000000, Ops: e.N(14, 30), Race: true})
 	}
